@@ -57,5 +57,10 @@ def standins(tier, seed):
              [dict(signature=[0, 1, 1]), dict(signature=[1, 1, 0]), 'signature order (null generator position)'],
              [dict(p=3), dict(p=3, basis=['e', 'e2', 'e1', 'e3', 'e12', 'e13', 'e23', 'e123']), 'same blade names, generators in another order'],
              [dict(name='2DPGA'), dict(p=2, q=0, r=1, basis=['e', 'e0', 'e1', 'e2', 'e20', 'e01', 'e12', 'e012']), 'same blade names as 2DPGA, generators in another order']]
+    # construction routes on custom bases (blade names as keys of a mapping / keys= / keywords, canonical and permuted spellings): the
+    # relabelling map applies to constructors as it does to accessors
+    jobs.append({'name': 'construct-custom', 'bound': f'{n} seeded key sets per custom-basis configuration x 6 construction routes + permuted spellings as keywords / mapping keys / keys= names',
+                 'job': {'kind': 'roundtrip', 'module': 'standins.jobs4', 'seed': seed,
+                         'configs': [dict(c, random=n) for c in (dict(name='2DPGA'), dict(name='3DPGA'), dict(p=3, basis=['e', 'e1', 'e2', 'e3', 'e12', 'e31', 'e23', 'e123']), dict(p=2, q=0, r=1, start_index=2))]}})
     jobs.append({'name': 'reject', 'bound': '9 pairs of algebras differing in signature order / start_index / p,q,r / basis (spelling, generator order) / dimension', 'job': {'kind': 'reject', 'module': 'standins.jobs5', 'pairs': pairs}})
     return jobs
